@@ -355,7 +355,9 @@ def oracles(ctx, deep):
             y = read_yaml(p)
         except Exception:
             continue
-        key = (".".join(y["model"]), y["engine"])
+        # one per (model class, engine, set of additional models): a configuration without additional models takes a
+        # different path through the environment set-up than one with a sensitivity model
+        key = (".".join(y["model"]), y["engine"], tuple(sorted(".".join(a) for a, _ in y["additional"])))
         if key in done_models and not (ctx.thorough or deep):
             continue
         if time.time() - t0 > budget:
@@ -388,6 +390,56 @@ def oracles(ctx, deep):
                     runs += 1
         except Exception as e:  # noqa
             add(Violation("defaults-constructible", "%s: default configuration cannot be constructed: %s: %s" % (mod, type(e).__name__, str(e)[:160]), {"module": mod, "exception": type(e).__name__}, {"kind": "defaults", "module": mod}))
+    # 4. the default configuration of every model class can be instantiated into its model, and its defaults are values of
+    #    the declared field types (an Enum member as default of a str-typed field is stored as 'EnumName.MEMBER')
+    try:
+        import inspect
+        import pkgutil
+        import re as _re2
+
+        import direct.nn as NN
+        from direct.config.defaults import ModelConfig
+        from direct.data.transforms import fft2, ifft2
+        from omegaconf import OmegaConf
+
+        for pkg in sorted(m.name for m in pkgutil.iter_modules(NN.__path__) if m.ispkg):
+            try:
+                cm = importlib.import_module("direct.nn.%s.config" % pkg)
+            except ModuleNotFoundError:
+                continue
+            for nm, obj in sorted(vars(cm).items()):
+                if not (isinstance(obj, type) and issubclass(obj, ModelConfig) and obj is not ModelConfig and obj.__module__ == cm.__name__):
+                    continue
+                mname, cls, modname = nm[: -len("Config")], None, None
+                for sub in pkgutil.iter_modules(importlib.import_module("direct.nn.%s" % pkg).__path__):
+                    if sub.name.endswith("config") or sub.name.endswith("engine"):
+                        continue
+                    mod = importlib.import_module("direct.nn.%s.%s" % (pkg, sub.name))
+                    if hasattr(mod, mname):
+                        cls, modname = getattr(mod, mname), sub.name
+                        break
+                if cls is None:
+                    continue
+                runs += 1
+                site = {"kind": "default-model", "config": nm}
+                try:
+                    cfg = OmegaConf.structured(obj)
+                    cfg.model_name = "%s.%s.%s" % (pkg, modname, mname)
+                    kw = {k: v for k, v in cfg.items() if k not in ("model_name", "engine_name")}
+                except Exception as e:  # noqa
+                    add(Violation("default-model-instantiates", "%s: default configuration cannot be read: %s: %s" % (nm, type(e).__name__, str(e)[:160]), {"config_class": nm, "exception": type(e).__name__}, site))
+                    continue
+                bad = sorted(k for k, v in kw.items() if isinstance(v, str) and _re2.match(r"^[A-Z][A-Za-z]*\.[A-Z_0-9]+$", v))
+                if bad:
+                    add(Violation("default-well-typed", "%s: string-typed field(s) %s default to an Enum member, which the typed schema stores as %s" % (nm, bad, [kw[b] for b in bad]), {"config_class": nm, "fields": bad, "stored": [kw[b] for b in bad]}, {"kind": "default-type", "config": nm}))
+                if "forward_operator" in inspect.signature(cls.__init__).parameters:
+                    kw.update(forward_operator=fft2, backward_operator=ifft2)
+                try:
+                    cls(**kw)
+                except Exception as e:  # noqa
+                    add(Violation("default-model-instantiates", "%s: %s(**default configuration) raises %s: %s" % (nm, mname, type(e).__name__, str(e)[:160]), {"config_class": nm, "model": "%s.%s.%s" % (pkg, modname, mname), "exception": type(e).__name__, "message": str(e)[:300]}, site))
+    except Exception as e:  # noqa
+        add(Violation("default-model-instantiates", "enumeration of model configurations failed: %s: %s" % (type(e).__name__, str(e)[:160]), {"exception": type(e).__name__}, {"kind": "default-model-enum"}))
     shutil.rmtree(cache, ignore_errors=True)
     ctx.oracle_runs = runs
     return out
